@@ -38,7 +38,7 @@ VARIABLES
     hyd,     \* client -> set of groups hydrated since the last (re)start
     withdrawn, \* events created but never published (pending commit cleared before publication)
     wl,      \* welcome name -> [g, to, chain, commit, inviter]: invitations produced by add commits
-    welc,    \* client -> (welcome name -> "pending" | "accepted" | "declined"): stored welcomes
+    welc,    \* client -> (welcome name -> [st: "pending" | "accepted" | "declined", x: wrapper id it was last stored under])
     pwelc,   \* client -> (welcome name -> "processed" | "failed"): processed-welcome records
     hist     \* history / observation variables (never read by actions; hidden by VIEW in MC)
 
@@ -101,6 +101,18 @@ Restore(gs, s) == [gs EXCEPT !.mls = s.mls, !.chain = s.chain, !.pend = s.pend, 
 \* the ratchet generation an event occupies
 Gen(e) == [a |-> ev[e].author, ch |-> ev[e].parent, t |-> IF ev[e].kind = "app" THEN "app" ELSE "hs", n |-> ev[e].gen]
 
+\* sender-ratchet windows (MdkConfig.out_of_order_tolerance / maximum_forward_distance; overridden by the trace cfg).
+\* A receiver's ratchet for (sender, epoch, type) stands at head = 1 + the highest generation it has decrypted; it hands out
+\* a generation once, at most MFD ahead of the head and at most OOT behind it.
+OOT == 100
+MFD == 1000
+RatchetHead(gs, G) == LET used == {x.n : x \in {y \in gs.consumed : y.a = G.a /\ y.ch = G.ch /\ y.t = G.t}}
+                      IN  IF used = {} THEN 0 ELSE 1 + CHOOSE m \in used : \A k \in used : k <= m
+Decryptable(gs, G) == LET h == RatchetHead(gs, G) IN
+    /\ G \notin gs.consumed
+    /\ G.n <= h + MFD
+    /\ G.n >= h \/ h - G.n <= OOT
+
 NoProc == [state |-> "none", epoch |-> NoEpoch, g |-> ""]
 ProcOf(cs, e) == IF e \in DOMAIN cs.proc THEN cs.proc[e] ELSE NoProc
 SetProc(cs, e, state, g, epoch) ==
@@ -161,7 +173,7 @@ TakeSnapshot(cs00, g, e) ==
         entry == [epoch |-> Cur(cs, g), commit |-> e, ts |-> ev[e].ts]
         nseq  == 1 + (IF gs.stored = {} THEN 0 ELSE CHOOSE m \in {x.seq : x \in gs.stored} : \A y \in gs.stored : y.seq <= m)
         st1   == {s \in gs.stored : ~(s.epoch = entry.epoch /\ s.commit = e)}
-                   \cup {[epoch |-> entry.epoch, commit |-> e, seq |-> nseq, snap |-> SnapOf(gs)]}
+                   \cup {[epoch |-> entry.epoch, commit |-> e, seq |-> nseq, snap |-> SnapOf(gs), born |-> cs.now]}
         q1    == Append(cs.q[g], entry)
         drop  == IF Len(q1) > Retention THEN Len(q1) - Retention ELSE 0
         gone  == {<<q1[i].epoch, q1[i].commit>> : i \in 1..drop}
@@ -342,7 +354,15 @@ ProcWrongEpoch(cs0, c, e, g, recEpoch, nm, n, isCommit) ==
        /\ IsBetterCandidate(cs, g, n, e) /\ HasStored(cs, g, SnapIdx(cs, g, n))
     THEN LET cs1 == RollbackTo(cs, g, n)
              inv == {k \in DOMAIN cs1.msgs : k[1] = g /\ cs1.msgs[k].epoch > n}
-             cs2 == [cs1 EXCEPT !.msgs = [k \in DOMAIN @ |-> IF k \in inv THEN [@[k] EXCEPT !.state = "epoch_invalidated"] ELSE @[k]]]
+             cs2a == [cs1 EXCEPT !.msgs = [k \in DOMAIN @ |-> IF k \in inv THEN [@[k] EXCEPT !.state = "epoch_invalidated"] ELSE @[k]]]
+             \* the snapshot brought back the pointer cached when it was taken; it is recomputed from the stored messages
+             \* (as built before the fix -- deviation RollbackStalePointer -- the restored pointer was kept)
+             V     == {k \in DOMAIN cs2a.msgs : k[1] = g /\ cs2a.msgs[k].state # "epoch_invalidated"}
+             top   == CHOOSE k \in V : \A j \in V \ {k} : MsgKeyLess(cs2a.msgs[j], cs2a.msgs[k])
+             cs2   == IF "RollbackStalePointer" \in Dev THEN cs2a
+                      ELSE IF V = {} THEN [cs2a EXCEPT !.g[g].rec.last = NoE, !.g[g].rec.lkey = NoKey]
+                      ELSE [cs2a EXCEPT !.g[g].rec.last = top[2],
+                                        !.g[g].rec.lkey = [ca |-> cs2a.msgs[top].ca, pa |-> cs2a.msgs[top].pa, idr |-> cs2a.msgs[top].idr]]
              cs3 == [cs2 EXCEPT !.proc = [x \in DOMAIN @ |->
                                    IF @[x].g = g /\ @[x].epoch # NoEpoch /\ @[x].epoch > n
                                    THEN [@[x] EXCEPT !.state = "epoch_invalidated"] ELSE @[x]]]
@@ -407,7 +427,7 @@ Process(cs, c, e, nm, first) ==
          THEN ProcOwnPending(csS, c, e, g, recEpoch)     \* (also for a tampered copy: the pending commit is merged)
          ELSE ProcOwnEcho(csS, c, e, g)
     ELSE IF tampered THEN FailUnprocessable(csS, e, g, recEpoch)                \* AEAD failure
-    ELSE IF Gen(e) \in gsS.consumed \/ E.author \notin GS(g, E.parent).members
+    ELSE IF ~Decryptable(gsS, Gen(e)) \/ E.author \notin GS(g, E.parent).members
     THEN FailUnprocessable(csS, e, g, recEpoch)                                 \* ratchet generation already used / unknown sender
     ELSE
     LET csD == [csS EXCEPT !.g[g].consumed = @ \cup {Gen(e)}] IN                    \* decrypting consumes the generation
@@ -421,7 +441,7 @@ Process(cs, c, e, nm, first) ==
 (* Packing / unpacking one client's state                                   *)
 
 CS(c) == [g |-> cl[c], proc |-> proc[c], msgs |-> msgs[c], q |-> snapq[c], notif |-> <<>>, out |-> <<>>,
-          hyd |-> hyd[c], sql |-> c \in Sql, syncfail |-> {}]
+          hyd |-> hyd[c], sql |-> c \in Sql, syncfail |-> {}, now |-> 0]
 
 \* hydration of the snapshot queue from storage (persistent backends, first touch after restart)
 Persistent(c) == c \in Sql
@@ -532,7 +552,7 @@ DoCommitX(c, g, kind, arg, nm, wn, raw) ==
           /\ wl' = IF kind = "add"
                     THEN wl @@ [w \in {wn[u] : u \in arg} |->
                                   [g |-> g, to |-> CHOOSE u \in arg : wn[u] = w, chain |-> Append(cl[c][g].chain, nm.name),
-                                   commit |-> nm.name, inviter |-> c]]
+                                   commit |-> nm.name, inviter |-> c, kp |-> "live"]]
                     ELSE wl
     /\ UNCHANGED <<ginfo, withdrawn, welc, pwelc, hist>>
 DoCommit(c, g, kind, arg, nm, wn) == DoCommitX(c, g, kind, arg, nm, wn, FALSE)
@@ -599,11 +619,16 @@ Leave(c, g, nm) ==
 -----------------------------------------------------------------------------
 (* Welcomes (welcomes.rs)                                                   *)
 
-WelcOf(c, w) == IF w \in DOMAIN welc[c] THEN welc[c][w] ELSE "none"
+WelcOf(c, w) == IF w \in DOMAIN welc[c] THEN welc[c][w].st ELSE "none"
 PWelcOf(c, x) == IF x \in DOMAIN pwelc[c] THEN pwelc[c][x] ELSE "none"
 
 \* the welcome can be staged by c: it was encrypted to one of c's key packages
-CanStage(c, w) == wl[w].to = c
+\* every invitation targets a fresh key package of the invitee; staging needs its private part in the invitee's storage
+CanStage(c, w) == wl[w].to = c /\ wl[w].kp = "live"
+\* the Marmot data of the group the welcome leads to carries a nostr id that another group held by c already uses:
+\* the pending record cannot be stored (unique nostr-id index) and the call fails without leaving any trace
+WelcomeNidCollides(c, w) ==
+    \E h \in Groups \ {wl[w].g} : cl[c][h].rec.st # "none" /\ cl[c][h].rec.data.nid = GS(wl[w].g, wl[w].chain).nid
 
 \* process_welcome(wrapper id x, rumor of welcome w): result class "Ok" | "Err".
 \* Dedup is by WRAPPER id; the stored welcome is keyed by the RUMOR id, so the same rumor under a fresh
@@ -611,7 +636,7 @@ CanStage(c, w) == wl[w].to = c
 ProcessWelcomeRes(c, w, x) ==
     IF PWelcOf(c, x) = "failed" THEN "Err"
     ELSE IF PWelcOf(c, x) = "processed" THEN (IF WelcOf(c, w) # "none" THEN "Ok" ELSE "Err")
-    ELSE IF CanStage(c, w) THEN "Ok" ELSE "Err"
+    ELSE IF CanStage(c, w) /\ ~WelcomeNidCollides(c, w) THEN "Ok" ELSE "Err"
 
 ProcessWelcome(c, w, x) ==
     /\ w \in DOMAIN wl
@@ -620,13 +645,15 @@ ProcessWelcome(c, w, x) ==
        ELSE IF ~CanStage(c, w)
        THEN /\ pwelc' = [pwelc EXCEPT ![c] = (x :> "failed") @@ @]
             /\ UNCHANGED <<cl, welc>>
+       ELSE IF WelcomeNidCollides(c, w)
+       THEN UNCHANGED <<cl, welc, pwelc>>                  \* save_group refused: Err, nothing recorded (a retry does the same)
        ELSE \* saves a Pending group record (overwriting whatever record exists for that MLS group id)
             /\ cl' = [cl EXCEPT ![c][g].rec = [st |-> "pending", epoch |-> EpochOf(g, wl[w].chain),
                                                data |-> GS(g, wl[w].chain), last |-> NoE, lkey |-> NoKey, su |-> TRUE]]
             /\ pwelc' = [pwelc EXCEPT ![c] = (x :> "processed") @@ @]
-            /\ welc' = [welc EXCEPT ![c] = (w :> "pending") @@ @]
+            /\ welc' = [welc EXCEPT ![c] = (w :> [st |-> "pending", x |-> x]) @@ @]
     /\ hist' = [hist EXCEPT !.lastRes = ProcessWelcomeRes(c, w, x),
-                            !.wreset = IF PWelcOf(c, x) = "none" /\ CanStage(c, w) /\ cl[c][wl[w].g].mls # "none"
+                            !.wreset = IF PWelcOf(c, x) = "none" /\ CanStage(c, w) /\ ~WelcomeNidCollides(c, w) /\ cl[c][wl[w].g].mls # "none"
                                        THEN @ \cup {<<c, wl[w].g>>} ELSE @]
     /\ UNCHANGED <<ginfo, ev, proc, msgs, snapq, hyd, withdrawn, wl>>
 
@@ -640,7 +667,7 @@ AcceptWelcome(c, w) ==
                                               !.rec = IF @.st = "none" THEN @
                                                       ELSE [@ EXCEPT !.st = "active", !.su = TRUE,
                                                                      !.epoch = EpochOf(g, wl[w].chain), !.data = GS(g, wl[w].chain)]]]
-       /\ welc' = [welc EXCEPT ![c][w] = "accepted"]
+       /\ welc' = [welc EXCEPT ![c][w].st = "accepted"]
        /\ hist' = [hist EXCEPT !.wreset = IF cl[c][g].mls # "none" THEN @ \cup {<<c, g>>} ELSE @]
     /\ UNCHANGED <<ginfo, ev, proc, msgs, snapq, hyd, withdrawn, wl, pwelc>>
 
@@ -648,9 +675,22 @@ DeclineWelcome(c, w) ==
     /\ w \in DOMAIN wl /\ WelcOf(c, w) # "none" /\ CanStage(c, w)
     /\ LET g == wl[w].g IN
        /\ cl' = [cl EXCEPT ![c][g].rec = IF @.st = "none" THEN @ ELSE [@ EXCEPT !.st = "inactive"]]
-       /\ welc' = [welc EXCEPT ![c][w] = "declined"]
+       /\ welc' = [welc EXCEPT ![c][w].st = "declined"]
        /\ hist' = [hist EXCEPT !.wreset = IF cl[c][g].mls # "none" THEN @ \cup {<<c, g>>} ELSE @]
     /\ UNCHANGED <<ginfo, ev, proc, msgs, snapq, hyd, withdrawn, wl, pwelc>>
+
+\* accept / decline of a stored welcome whose key package is gone: the staging fails, the wrapper the welcome was last
+\* stored under is recorded Failed, nothing else changes (in particular no group becomes active)
+WelcomeCallFails(c, w) ==
+    /\ w \in DOMAIN wl /\ WelcOf(c, w) # "none" /\ ~CanStage(c, w)
+    /\ pwelc' = [pwelc EXCEPT ![c] = (welc[c][w].x :> "failed") @@ @]
+    /\ UNCHANGED <<ginfo, ev, cl, proc, msgs, snapq, hyd, withdrawn, wl, welc, hist>>
+
+\* routine key-package rotation: the invitee deletes the key package invitation w was built for from its local storage
+DropKeyPackage(c, w) ==
+    /\ w \in DOMAIN wl /\ wl[w].to = c
+    /\ wl' = [wl EXCEPT ![w].kp = "gone"]
+    /\ UNCHANGED <<ginfo, ev, cl, proc, msgs, snapq, hyd, withdrawn, welc, pwelc, hist>>
 
 \* a member proposes the removal of another member directly with the MLS library (mdk has no API for it)
 ProposeRemove(c, g, nm, target) ==
@@ -689,8 +729,10 @@ PublishJunk(c, g, nm, class, tag, base, par) ==
 \* at the moment of a first hand-over: is the event outside the configured windows?
 OutsideWindow(c, e) ==
     LET g == ev[e].g
-        d == EpochOf(g, cl[c][g].chain) - EpochOf(g, ev[e].parent) IN
-    d > Lookback \/ (ev[e].kind = "app" /\ d > MaxPast)
+        d == EpochOf(g, cl[c][g].chain) - EpochOf(g, ev[e].parent)
+        h == RatchetHead(cl[c][g], Gen(e)) IN
+    \/ d > Lookback \/ (ev[e].kind = "app" /\ d > MaxPast)
+    \/ ev[e].gen > h + MFD \/ (ev[e].gen < h /\ h - ev[e].gen > OOT)       \* outside the sender-ratchet windows
 
 \* expected pointer computed on a packed client state
 ExpectedLastCS(cs, g) ==
@@ -703,7 +745,7 @@ Deliver(c, e, nm) ==
     /\ e \in DOMAIN ev /\ e \notin withdrawn
     /\ nm.name \notin DOMAIN ev
     /\ LET g0 == ev[e].g
-           cs0 == CS(c)
+           cs0 == [CS(c) EXCEPT !.now = IF "t" \in DOMAIN nm THEN nm.t ELSE 0]    \* wall clock (seconds) of this call
            \* ensure_hydrated happens lazily inside the snapshot manager; model it up front for the target group
            r == Process(cs0, c, e, nm, TRUE)
        IN  /\ Install(c, r.cs)
@@ -714,18 +756,28 @@ Deliver(c, e, nm) ==
                                    !.ptrStale = IF r.cs.notif # <<>> THEN @ \cup {<<c, g0>>}
                                                 ELSE IF r.cs.g[g0].rec.last = ExpectedLastCS(r.cs, g0) THEN @ \ {<<c, g0>>}
                                                 ELSE @,
-                                   !.aheadOfRefs = IF ev[e].kind = "commit" /\ ~(ev[e].refs \subseteq cl[c][g0].props)
-                                                      /\ ev[e].parent = cl[c][g0].chain
+                                   !.aheadOfRefs = IF ev[e].kind = "commit"
+                                                      /\ \/ /\ ~(ev[e].refs \subseteq cl[c][g0].props)
+                                                            /\ ev[e].parent = cl[c][g0].chain
+                                                         \* ... or the call rolled back to e's parent first and the restored queue lacks it
+                                                         \/ /\ r.cs.notif # <<>>
+                                                            /\ ev[e].parent = r.cs.g[g0].chain
+                                                            /\ ~(ev[e].refs \subseteq r.cs.g[g0].props)
                                                    THEN @ \cup {<<c, e>>} ELSE @]
     /\ UNCHANGED <<ginfo, withdrawn, wl, welc, pwelc>>
 
-\* drop the MDK instance and its storage handle, reopen the same database (clean shutdown)
-Restart(c) ==
+\* drop the MDK instance and its storage handle, reopen the same database (clean shutdown).
+\* MdkBuilder::build first prunes every stored snapshot (of every group) created before now - ttl.
+NoTTL == 1000000000
+Expired(s, ttl, now) == s.born < now - ttl
+RestartT(c, ttl, now) ==
     /\ c \in Sql
+    /\ cl' = [cl EXCEPT ![c] = [g \in Groups |-> [@[g] EXCEPT !.stored = {s \in @ : ~Expired(s, ttl, now)}]]]
     /\ snapq' = [snapq EXCEPT ![c] = [g \in Groups |-> <<>>]]
     /\ hyd' = [hyd EXCEPT ![c] = {}]
     /\ hist' = [hist EXCEPT !.lostTs = @ \cup UNION {{<<c, snapq[c][g][i].commit>> : i \in DOMAIN snapq[c][g]} : g \in Groups}]
-    /\ UNCHANGED <<ginfo, ev, cl, proc, msgs, withdrawn, wl, welc, pwelc>>
+    /\ UNCHANGED <<ginfo, ev, proc, msgs, withdrawn, wl, welc, pwelc>>
+Restart(c) == RestartT(c, NoTTL, 0)
 
 \* the driver declares that every event has been re-offered until nothing changed
 Quiesce ==
@@ -779,6 +831,15 @@ Excused_CommitBeforeProposal(c, g) ==
     /\ k # NoE /\ <<c, k>> \in hist.aheadOfRefs
     /\ k \in DOMAIN proc[c] /\ proc[c][k].state = "failed"
 
+\* finding RollbackBeforeValidation (seen from C01): a wrapper that merely LOOKS like a better commit for an applied epoch
+\* (earlier timestamp / smaller id) makes the client roll back before the candidate is validated; when it then turns out
+\* not to apply (non-admin author, missing proposal, tampered), the client stays rolled back and the dedup record of the
+\* commit it had applied -- the winner -- is EpochInvalidated, so that commit is refused for ever
+Excused_RollbackBeforeValidation(c, g) ==
+    LET k == NextNeeded(c, g) IN
+    /\ "RollbackBeforeValidation" \in Dev
+    /\ k # NoE /\ k \in DOMAIN proc[c] /\ proc[c][k].state = "epoch_invalidated"
+
 \* finding RotationDropsInFlight: events tagged with a nostr group id that is no longer in force at c
 \* find no group; they are recorded Failed without a group and never retried
 Excused_RotationCommit(c, g) ==
@@ -820,6 +881,8 @@ C01_Ex(pr) == \A g \in Groups : Created(g) => \A c \in Remaining(g) :
                                       /\ pr => PrintT(<<"KNOWN-FINDING", "C01", "MergeNoSnapshot", c, g>>)
                                    \/ /\ Excused_CommitBeforeProposal(c, g)
                                       /\ pr => PrintT(<<"KNOWN-FINDING", "C01", "CommitBeforeProposal", c, g>>)
+                                   \/ /\ Excused_RollbackBeforeValidation(c, g)
+                                      /\ pr => PrintT(<<"KNOWN-FINDING", "C01", "RollbackBeforeValidation", c, g>>)
                                    \/ /\ Excused_OwnInvalidCommit(c, g)
                                       /\ pr => PrintT(<<"KNOWN-FINDING", "C01", "OwnCommitNotValidated", c, g>>)
                                    \/ /\ Excused_RestartLostTimestamp(c, g)
@@ -955,7 +1018,7 @@ C08_Mirror == \A c \in Clients, g \in Groups :
 C16_ConsentGated == \A c \in Clients, g \in Groups :
     (Created(g) /\ cl[c][g].rec.st = "active") =>
         \/ c \in ginfo[g].init.members
-        \/ \E w \in DOMAIN welc[c] : wl[w].g = g /\ welc[c][w] = "accepted"
+        \/ \E w \in DOMAIN welc[c] : wl[w].g = g /\ welc[c][w].st = "accepted"
 \* after accepting, the joiner is in the inviter's post-commit state with the rotation obligation (checked on the step)
 GroupObs(c, g) == [chain |-> cl[c][g].chain, mls |-> cl[c][g].mls, pend |-> cl[c][g].pend, props |-> cl[c][g].props,
                    st |-> cl[c][g].rec.st, epoch |-> cl[c][g].rec.epoch, data |-> cl[c][g].rec.data]
